@@ -10,6 +10,8 @@ import os
 import random
 import shutil
 import socket
+import time
+import threading
 import itertools
 from typing import Any, Dict, List, Optional, Set, Tuple
 
@@ -63,6 +65,107 @@ def probe(host: Optional[str], port: int, unix_path: Optional[str] = None) -> Tu
     finally:
         s.close()
     return True, data
+
+
+def server_closes_first(host: str, port: int) -> bool:
+    """A conversation the proxy ends itself (rejected request): read to EOF, only then close."""
+    s = socket.socket(socket.AF_INET6 if ':' in host else socket.AF_INET, socket.SOCK_STREAM)
+    s.settimeout(30)
+    try:
+        s.connect((host, port))
+        s.sendall(b'GARBAGE-REQUEST\r\n\r\n')
+        while s.recv(4096):
+            pass
+        time.sleep(0.05)
+        return True
+    except OSError:
+        return False
+    finally:
+        s.close()
+
+
+class Echo(threading.Thread):
+    def __init__(self) -> None:
+        super().__init__(daemon=True)
+        self.ls = socket.socket(socket.AF_INET, socket.SOCK_STREAM)
+        self.ls.bind(('127.0.0.9', 0))
+        self.ls.listen(8)
+        self.port = self.ls.getsockname()[1]
+        self.stop = False
+
+    def run(self) -> None:
+        self.ls.settimeout(0.2)
+        while not self.stop:
+            try:
+                c, _ = self.ls.accept()
+            except socket.timeout:
+                continue
+            except OSError:
+                return
+            threading.Thread(target=self._echo, args=(c,), daemon=True).start()
+
+    def _echo(self, c: socket.socket) -> None:
+        try:
+            c.settimeout(60)
+            while True:
+                d = c.recv(4096)
+                if not d:
+                    break
+                c.sendall(d)
+        except OSError:
+            pass
+        finally:
+            c.close()
+
+    def close(self) -> None:
+        self.stop = True
+        self.ls.close()
+
+
+class BusyClient(threading.Thread):
+    """A client that keeps a CONNECT tunnel busy (a round trip every 50 ms) until told to stop or until the proxy ends it."""
+
+    def __init__(self, host: str, port: int, echo: Echo) -> None:
+        super().__init__(daemon=True)
+        self.addr, self.echo = (host, port), echo
+        self.rounds = 0
+        self.established = threading.Event()
+        self.quit = threading.Event()
+        self.ended_by_proxy = False
+
+    def run(self) -> None:
+        s = socket.socket(socket.AF_INET6 if ':' in self.addr[0] else socket.AF_INET, socket.SOCK_STREAM)
+        s.settimeout(30)
+        try:
+            s.connect(self.addr)
+            t = b'127.0.0.9:%d' % self.echo.port
+            s.sendall(b'CONNECT %s HTTP/1.1\r\nHost: %s\r\n\r\n' % (t, t))
+            head = b''
+            while b'\r\n\r\n' not in head:
+                d = s.recv(4096)
+                if not d:
+                    return
+                head += d
+            if not head.startswith(b'HTTP/1.1 200'):
+                return
+            while not self.quit.is_set():
+                msg = b'ping%d;' % self.rounds
+                s.sendall(msg)
+                got = b''
+                while len(got) < len(msg):
+                    d = s.recv(4096)
+                    if not d:
+                        self.ended_by_proxy = True
+                        return
+                    got += d
+                self.rounds += 1
+                if self.rounds >= 2:
+                    self.established.set()
+                time.sleep(0.05)
+        except OSError:
+            self.ended_by_proxy = True
+        finally:
+            s.close()
 
 
 def run_case(case: Dict[str, Any]) -> Dict[str, Any]:
@@ -198,9 +301,40 @@ def run_case(case: Dict[str, Any]) -> Dict[str, Any]:
                     bad('pid-file-wrong')
             except (OSError, ValueError) as e:
                 bad('pid-file-unreadable', err=repr(e))
+        # (2b) history for the restart: on every fixed endpoint a conversation the proxy itself closed first
+        if case.get('restart') and fixed:
+            for (h, p) in sorted(fixed):
+                if server_closes_first(h, p) and any(st == '06' for (_, st) in liverig.tcp_sockets(p)):
+                    obs['time_wait_left_on_endpoint'] = obs.get('time_wait_left_on_endpoint', 0) + 1
+        # (2c) a client that is connected and busy while the proxy is told to shut down
+        busy = None
+        echo = None
+        if case.get('busy_client') and not case['unix']:
+            echo = Echo()
+            echo.start()
+            busy = BusyClient(hosts[0], P, echo)
+            busy.start()
+            if not busy.established.wait(30):
+                inconclusive = 'busy-client-not-established'
+                busy.quit.set()
+                busy = None
         # (3) shutdown
         kids = list(rd['children'])
         down = live.shutdown()
+        if busy is not None:
+            if down.get('tag') == 'TIMEOUT' and busy.is_alive() and not busy.ended_by_proxy:
+                # not down after 40 s with the tunnel still echoing.  Is the client what it is waiting for?  Let go and see.
+                rounds = busy.rounds
+                busy.quit.set()
+                busy.join(10)
+                down = live.await_down(40)
+                if down.get('tag') == 'DOWN':
+                    bad('shutdown-waits-for-connected-clients', client_round_trips_during_shutdown=rounds)
+            else:
+                obs['shutdowns_with_busy_client'] = 1
+            busy.quit.set()
+        if echo is not None:
+            echo.close()
         if down.get('tag') != 'DOWN':
             bad('shutdown-did-not-complete', tag=down.get('tag'))
             live.kill()
@@ -227,6 +361,35 @@ def run_case(case: Dict[str, Any]) -> Dict[str, Any]:
             if not live.exit():
                 bad('driver-process-did-not-exit')
             obs['shutdowns_checked'] = 1
+            # (4) start again where the first instance stood: same options, same fixed ports
+            if case.get('restart') and fixed and not viol:
+                live = None
+                try:
+                    live = liverig.Live(args, run_dir, hashseed=case['hashseed'])
+                except liverig.LiveFailed as e:
+                    if 'Address already in use' in str(e):
+                        others = {p: [a for (a, st) in liverig.tcp_sockets(p) if st == '0A'] for (_, p) in sorted(fixed)}
+                        if any(others.values()):
+                            inconclusive = 'restart: another process listens on the port by now'
+                        else:
+                            bad('restart-on-the-same-ports-fails-address-in-use', error=str(e)[:300],
+                                sockets={p: liverig.tcp_sockets(p) for (_, p) in sorted(fixed)})
+                    else:
+                        inconclusive = 'restart-driver-failed: %s' % str(e)[:200]
+                if live is not None:
+                    pids2 = [live.ready['pid']] + live.ready['children']
+                    bound2 = liverig.listening(pids2)['tcp']
+                    for (h, p) in sorted(fixed):
+                        ok, data = probe(h, p)
+                        if (h, p) not in bound2 or not ok or not (data.startswith(b'HTTP/1.') or data.startswith(b'<no answer')):
+                            bad('restarted-instance-endpoint-does-not-serve', endpoint=[h, p], accepted=ok, answer=data[:60])
+                    down2 = live.shutdown()
+                    if down2.get('tag') != 'DOWN':
+                        bad('shutdown-did-not-complete', tag=down2.get('tag'), instance='restarted')
+                        live.kill()
+                    else:
+                        live.exit()
+                        obs['restarts_checked'] = 1
     except liverig.LiveFailed:
         pass
     except OSError as e:
@@ -294,13 +457,16 @@ def cases(tier: str, seed: int):
                 i += 1
                 d = dict(c)
                 d.update({'seed': seed, 'i': i, 'mode': mode, 'hashseed': hs, 'acceptors': rng.choice([1, 2]), 'workers': rng.choice([1, 2]),
-                          'port_file': rng.random() < 0.8, 'pid_file': rng.random() < 0.5})
+                          'port_file': rng.random() < 0.8, 'pid_file': rng.random() < 0.5,
+                          'restart': (i % 3 == 0) if tier == 'quick' else (hs in (1, 3)),
+                          'busy_client': (i % 2 == 0) if tier == 'quick' else (hs in (2, 3))})
                 yield d
 
 
 def floors(tier: str) -> Dict[str, int]:
     return {'configs': 30, 'endpoints_probed': 60, 'shutdowns_checked': 30, 'os_assigned_configs': 5, 'multi_host_configs': 8,
-            'unix_configs': 4, 'port_files_checked': 15, 'primary_identity_checked': 15, 'mode:threaded': 5, 'mode:local': 5, 'mode:remote': 5}
+            'unix_configs': 4, 'port_files_checked': 15, 'primary_identity_checked': 15, 'mode:threaded': 5, 'mode:local': 5, 'mode:remote': 5,
+            'restarts_checked': 5, 'time_wait_left_on_endpoint': 5, 'shutdowns_with_busy_client': 8}
 
 
 if __name__ == '__main__':
